@@ -354,7 +354,14 @@ def sb_same(ex, node, st):
     return zint(a) == zint(b)
 
 
+def sb_pi(ex, node, st):
+    """pi(): the constant the engine uses for numpy.pi / math.pi"""
+    from . import libmodels
+    return libmodels.resolve_attr(ex, libmodels.ModRef("numpy"), "pi")
+
+
 SPEC_BUILTINS = {
+    "pi": sb_pi,
     "same": sb_same,
     "ORD": sb_ORD, "abs_us": sb_abs_us,
     "isnan": sb_isnan, "isinf": sb_isinf,
